@@ -38,10 +38,9 @@ def precedence_level(node: mparser.BaseNode) -> int:
     elif isinstance(node, (mparser.BooleanNode, mparser.IdNode, mparser.NumberNode, mparser.StringNode, mparser.EmptyNode)):
         return 10
     elif isinstance(node, mparser.ParenthesizedNode):
-        # Parenthesize have the highest binding power, but since the AstPrinter
-        # ignores ParanthesizedNode, the binding power of the inner node is
-        # relevant.
-        return precedence_level(node.inner)
+        # Parentheses have the highest binding power and the AstPrinter
+        # prints them as written.
+        return 10
     raise MesonBugException('Unhandled node type')
 
 class AstPrinter(AstVisitor):
@@ -162,6 +161,12 @@ class AstPrinter(AstVisitor):
         node.lineno = self.curr_line or node.lineno
         self.append_padded('not', node)
         node.value.accept(self)
+
+    def visit_ParenthesizedNode(self, node: mparser.ParenthesizedNode) -> None:
+        node.lineno = self.curr_line or node.lineno
+        self.append('(', node)
+        node.inner.accept(self)
+        self.append(')', node)
 
     def visit_CodeBlockNode(self, node: mparser.CodeBlockNode) -> None:
         node.lineno = self.curr_line or node.lineno
